@@ -46,7 +46,8 @@ func TestGovcReplay(t *testing.T) {
 		bad = append(bad, fmt.Sprintf("rate-limited request answered %d, not 429", c3))
 	}
 	// (c) declared body above the limit: must be 413
-	sa2 := &SecurityAdapters{securityChain: ports.NewSecurityChain(sv), logger: log}
+	// maxBodySize as NewApplication wires it from server.request_limits.max_body_size
+	sa2 := &SecurityAdapters{securityChain: ports.NewSecurityChain(sv), logger: log, maxBodySize: 1024}
 	c4 := call(sa2, "198.51.100.1:5000", 5000, strings.Repeat("x", 5000))
 	fmt.Printf("Content-Length 5000 with a 1024-byte limit: %d\n", c4)
 	if c4 != http.StatusRequestEntityTooLarge {
